@@ -12,18 +12,64 @@ from concurrent.futures import ProcessPoolExecutor
 
 import networkx as nx
 import numpy as np
-import xgi
+import xgi as _xgi
 
 from . import common, core, hg, obscore
 from .common import log
 
+_MODE = {"positional": False}
+# abstract seeds of Seeded.tla -> concrete values (0 is a seed like any other)
+SEEDMAP = {1: 0, 2: 3}
+
+
+class _Proxy:
+    """the xgi namespace as the recipes see it: with _MODE["positional"] every `seed=` keyword is handed
+    over positionally instead (the same call as far as the documentation is concerned)"""
+
+    def __getattr__(self, name):
+        attr = getattr(_xgi, name)
+        if not (_MODE["positional"] and inspect.isfunction(attr)):
+            return attr
+
+        def call(*a, **kw):
+            if "seed" not in kw:
+                return attr(*a, **kw)
+            try:
+                sig = inspect.signature(attr)
+                rest = {k: v for k, v in kw.items() if k != "seed"}
+                ba = sig.bind_partial(*a, **rest)
+                vals = []
+                for p_ in sig.parameters.values():
+                    if p_.name == "seed":
+                        break
+                    if p_.kind not in (p_.POSITIONAL_ONLY, p_.POSITIONAL_OR_KEYWORD):
+                        return attr(*a, **kw)
+                    if p_.name in ba.arguments:
+                        vals.append(ba.arguments[p_.name])
+                        rest.pop(p_.name, None)
+                    elif p_.default is not inspect.Parameter.empty:
+                        vals.append(p_.default)
+                    else:
+                        return attr(*a, **kw)
+                else:
+                    return attr(*a, **kw)
+                if sig.parameters["seed"].kind not in (inspect.Parameter.POSITIONAL_ONLY, inspect.Parameter.POSITIONAL_OR_KEYWORD):
+                    return attr(*a, **kw)
+            except TypeError:
+                return attr(*a, **kw)
+            return attr(*vals, kw["seed"], **rest)
+        return call
+
+
+xgi = _Proxy()
+
 
 def seeded_functions():
     out = []
-    for name in sorted(dir(xgi)):
+    for name in sorted(dir(_xgi)):
         if name.startswith("_"):
             continue
-        f = getattr(xgi, name)
+        f = getattr(_xgi, name)
         if inspect.isfunction(f):
             try:
                 if "seed" in inspect.signature(f).parameters:
@@ -103,9 +149,23 @@ def variants():
     """(name, callable(seed)) for every recipe, with python-int seeds and with numpy-integer seeds"""
     out = []
     for name, f in RECIPES.items():
-        out.append((name, f))
-        out.append((name + "[np.int64 seed]", lambda s, f=f: f(np.int64(s))))
+        out.append((name, lambda s, f=f: f(SEEDMAP[s])))
+        out.append((name + "[np.int64 seed]", lambda s, f=f: f(np.int64(SEEDMAP[s]))))
+        out.append((name + "[positional seed]", lambda s, f=f: _positional(f, SEEDMAP[s])))
+        # one SeedSequence object per seed, used again at every call with that seed
+        out.append((name + "[SeedSequence seed]", lambda s, f=f: f(_SEQ.setdefault(s, np.random.SeedSequence(SEEDMAP[s])))))
     return out
+
+
+_SEQ = {}
+
+
+def _positional(f, s):
+    _MODE["positional"] = True
+    try:
+        return f(s)
+    finally:
+        _MODE["positional"] = False
 
 
 def canon(x):
@@ -144,6 +204,7 @@ def _worker(args):
     out = []
     for k, acts in enumerate(schedules):
         rec = []
+        _SEQ.clear()
         for a in acts:
             e = {"a": a["a"], "s": a["s"], "digest": 0}
             if a["a"] == "call":
@@ -167,7 +228,7 @@ def _worker(args):
             elif a["a"] == "seed_np":
                 np.random.seed(54321 + k)
             rec.append(e)
-        out.append({"rid": f"{fn}.{base + k}", "what": fn, "fn": fn, "acts": rec, "strict": "[np.int64" not in fn})
+        out.append({"rid": f"{fn}.{base + k}", "what": fn, "fn": fn, "acts": rec, "strict": "[np.int64" not in fn and "[SeedSequence" not in fn})
     return out
 
 
@@ -205,7 +266,7 @@ def run(tier, seed_):
     jobs = []
     for i, fn in enumerate(allv):
         pick = scheds if len(scheds) <= per_fn else rng.sample(scheds, per_fn)
-        if "[np.int64" in fn and tier == "quick":
+        if ("[np.int64" in fn or "[SeedSequence" in fn or "[positional" in fn) and tier == "quick":
             pick = pick[:8]
         slow = fn.split("[")[0] in ("spectral_clustering", "pairwise_spring_layout", "barycenter_spring_layout",
                       "weighted_barycenter_spring_layout", "bipartite_spring_layout")
